@@ -10,6 +10,7 @@
     Props/C10/Terms.lean    relative-name term semantics of what sarkka / naive build; `sarkka_terms_eq_naive_terms_*`
     Props/C10/Carrier.lean  driver `Mat.mul sr` = Mathlib matrix product on the NaN-free carrier (add-mul, max-add)
     Props/C10/Const.lean    the time-homogeneous branch for EVERY duration: returns ⇔ duration = 2^k, value = fold
+    Props/C10/Gen.lean      obligations over Gen/C10Sarkka.lean (extracted index expressions) + the max(lags)-bound witness
     Props/C10/Eager.lean    the four branches of eager_markov_product (`markov_eager_empty_step`, …)
     Props/C10/Matrix.lean   instantiation at Mathlib's `Matrix n n R` over a semiring (`matrix_mul_assoc`, …)
 -/
